@@ -94,11 +94,12 @@ theorem FIBDemux.put_atMostOne (c : FIBDemuxCfg) (p : Pkt) (l : List Delivery) (
   · cases h
   · split at h
     · cases h; simp
-    · unfold FIBDemux.viaTable at h
-      split at h
-      · cases h
-      · cases h
-      · cases h; exact FIBDemux.lookup_atMostOne _ _ _ _
+    · cases h
+      unfold FIBDemux.viaTable
+      split
+      · exact ⟨toDefault_length _ _, toDefault_ref _ _⟩
+      · exact ⟨toDefault_length _ _, toDefault_ref _ _⟩
+      · exact FIBDemux.lookup_atMostOne _ _ _ _
 
 /-! ### the FIBDemux rules -/
 
@@ -115,15 +116,30 @@ theorem FIBDemux.put_table (c : FIBDemuxCfg) (fib : List (Int × Int)) (p : Pkt)
   obtain ⟨o, os, rfl⟩ := List.exists_cons_of_ne_nil hne
   simp [FIBDemux.put, hfib, hends, FIBDemux.viaTable, houts, FIBDemux.lookup, hport, pyIndex_nonneg _ _ h0, hd]
 
-theorem FIBDemux.put_unknown (c : FIBDemuxCfg) (fib : List (Int × Int)) (p : Pkt) (outs : List Dev)
-    (hfib : c.fib = some fib) (houts : c.outs = some outs) (hne : outs ≠ []) (hends : dget c.ends p.flowId = none)
-    (hnone : dget fib p.flowId = none) :
+/-- an unknown flow goes to the default output — whatever the output list is (`None` and `[]` included) -/
+theorem FIBDemux.put_unknown (c : FIBDemuxCfg) (fib : List (Int × Int)) (p : Pkt)
+    (hfib : c.fib = some fib) (hends : dget c.ends p.flowId = none) (hnone : dget fib p.flowId = none) :
     FIBDemux.put c p = .ok (match c.default with
       | some d => [(d, p.ref)]
       | none => []) := by
-  obtain ⟨o, os, rfl⟩ := List.exists_cons_of_ne_nil hne
-  simp only [FIBDemux.put, hfib, hends, FIBDemux.viaTable, houts, FIBDemux.lookup, hnone]
-  cases c.default <;> rfl
+  simp only [FIBDemux.put, hfib, hends, FIBDemux.viaTable]
+  cases c.outs with
+  | none => cases c.default <;> rfl
+  | some outs =>
+    cases outs with
+    | nil => cases c.default <;> rfl
+    | cons o os =>
+      simp only [FIBDemux.lookup, hnone]
+      cases c.default <;> rfl
+
+/-- without output devices every flow that has no end device goes to the default output -/
+theorem FIBDemux.put_noOutputs (c : FIBDemuxCfg) (fib : List (Int × Int)) (p : Pkt)
+    (hfib : c.fib = some fib) (hends : dget c.ends p.flowId = none) (houts : c.outs = none ∨ c.outs = some []) :
+    FIBDemux.put c p = .ok (match c.default with
+      | some d => [(d, p.ref)]
+      | none => []) := by
+  simp only [FIBDemux.put, hfib, hends, FIBDemux.viaTable]
+  rcases houts with h | h <;> rw [h] <;> cases c.default <;> rfl
 
 /-! ### switch configuration -/
 
@@ -255,42 +271,80 @@ theorem split_refs_nodup (o : Option Dev) (rest : List (Option Dev)) (p : Pkt) (
 
 /-! ### heap -/
 
-theorem Heap.setField_other (h : Heap) (r r' : PktRef) (f : Nat) (v : Int) (hne : r' ≠ r) :
-    (h.setField r f v) r' = h r' := by
-  simp [Heap.setField, hne]
-
-theorem splitHeap_notMem (h : Heap) (orig : PktRef) (l : List Delivery) (r : PktRef)
-    (hr : r ∉ l.map (·.2)) : splitHeap h orig l r = h r := by
+theorem splitHeap_notMem (h : Heap) (orig : PktRef) (l : List Delivery) (r : PktRef) (hr : r ∉ l.map (·.2)) :
+    (splitHeap h orig l).objs r = h.objs r ∧ ∀ w, (splitHeap h orig l).tabs (r, w) = h.tabs (r, w) := by
   induction l generalizing h with
-  | nil => rfl
+  | nil => exact ⟨rfl, fun _ => rfl⟩
   | cons x rest ih =>
     obtain ⟨d, r'⟩ := x
     simp only [List.map_cons, List.mem_cons, not_or] at hr
     simp only [splitHeap]
-    rw [ih _ hr.2]
-    split
-    · rfl
-    · simp [Heap.alloc, hr.1]
+    obtain ⟨i1, i2⟩ := ih (if r' = orig then h else h.copyPkt orig r') hr.2
+    by_cases e : r' = orig
+    · simp only [if_pos e] at i1 i2 ⊢; exact ⟨i1, i2⟩
+    · simp only [if_neg e] at i1 i2 ⊢
+      refine ⟨?_, ?_⟩
+      · rw [i1]; unfold Heap.copyPkt
+        cases h.objs orig with
+        | none => rfl
+        | some o => simp [hr.1]
+      · intro w; rw [i2]; unfold Heap.copyPkt
+        cases h.objs orig with
+        | none => rfl
+        | some o => simp [hr.1]
 
-/-- after a splitter dispatch every delivered object carries the header of the original -/
-theorem splitHeap_copy (h : Heap) (orig : PktRef) (l : List Delivery) (hn : (l.map (·.2)).Nodup) :
-    ∀ x ∈ l, splitHeap h orig l x.2 = h orig := by
+/-- **after a splitter dispatch every delivered object has the original's field values, owns its two tables, and those
+tables hold what the original's held** (the original owning its tables to begin with) -/
+theorem splitHeap_spec (h : Heap) (orig : PktRef) (o : Obj) (l : List Delivery)
+    (ho : h.objs orig = some o) (hown : ∀ w, o.tab w = (orig, w)) (hn : (l.map (·.2)).Nodup) :
+    ∀ x ∈ l, (splitHeap h orig l).objs x.2 = some { hdr := o.hdr, tab := fun w => (x.2, w) } ∧
+      ∀ w, (splitHeap h orig l).tabs (x.2, w) = h.tabs (orig, w) := by
   induction l generalizing h with
   | nil => simp
   | cons y rest ih =>
     obtain ⟨d, r⟩ := y
     simp only [List.map_cons, List.nodup_cons] at hn
     intro x hx
-    simp only [List.mem_cons] at hx
     simp only [splitHeap]
-    rcases hx with rfl | hx
-    · rw [splitHeap_notMem _ _ _ _ hn.1]
-      split
-      · rename_i e; simp [e]
-      · simp [Heap.alloc]
-    · rw [ih _ hn.2 x hx]
-      split
-      · rfl
-      · rename_i hne; simp [Heap.alloc, Ne.symm hne]
+    have oeq : (⟨o.hdr, fun w => (orig, w)⟩ : Obj) = o := by
+      cases o with
+      | mk hdr tab => simp only [Obj.mk.injEq, true_and]; funext w; exact (hown w).symm
+    by_cases e : r = orig
+    · subst e
+      simp only [if_true]
+      rcases List.mem_cons.mp hx with rfl | hx
+      · obtain ⟨n1, n2⟩ := splitHeap_notMem h r rest r hn.1
+        simp only at n1 n2 ⊢
+        rw [n1, ho, oeq]
+        exact ⟨rfl, n2⟩
+      · exact ih h ho hn.2 x hx
+    · simp only [if_neg e]
+      have ho' : (h.copyPkt orig r).objs orig = some o := by
+        have : ¬ orig = r := fun h' => e h'.symm
+        simp [Heap.copyPkt, ho, this]
+      have ht' : ∀ w, (h.copyPkt orig r).tabs (orig, w) = h.tabs (orig, w) := by
+        intro w
+        have : ¬ orig = r := fun h' => e h'.symm
+        simp [Heap.copyPkt, ho, this]
+      rcases List.mem_cons.mp hx with rfl | hx
+      · obtain ⟨n1, n2⟩ := splitHeap_notMem (h.copyPkt orig r) orig rest r hn.1
+        simp only at n1 n2 ⊢
+        refine ⟨?_, ?_⟩
+        · rw [n1]; simp [Heap.copyPkt, ho]
+        · intro w; rw [n2]; simp [Heap.copyPkt, ho, hown]
+      · obtain ⟨i1, i2⟩ := ih (h.copyPkt orig r) ho' hn.2 x hx
+        exact ⟨i1, fun w => by rw [i2, ht']⟩
+
+/-- rebinding a field of one object does not touch another object, nor any table -/
+theorem Heap.setField_other (h : Heap) (r r' : PktRef) (f : Nat) (v : Int) (hne : r' ≠ r) :
+    (h.setField r f v).objs r' = h.objs r' ∧ (h.setField r f v).tabs = h.tabs := by
+  simp [Heap.setField, hne]
+
+/-- an in-place table write through object `x` is invisible through object `y` when their tables are different dicts -/
+theorem Heap.tabWrite_other (h : Heap) (x y : PktRef) (ox oy : Obj) (hx : h.objs x = some ox) (hy : h.objs y = some oy)
+    (w w' : Tab) (hne : ox.tab w ≠ oy.tab w') (k k' : Nat) (v : Int) :
+    (h.tabWrite x w k v).readTab y w' k' = h.readTab y w' k' ∧ ∀ f, (h.tabWrite x w k v).readField y f = h.readField y f := by
+  have hne' : ¬ oy.tab w' = ox.tab w := fun e => hne e.symm
+  simp [Heap.tabWrite, Heap.readTab, Heap.readField, hx, hy, hne']
 
 end Route
